@@ -47,7 +47,8 @@ class SimRHS(object):
             else:
                 val = val + np.asarray(flt.get("amp", 1e3), dtype=val.dtype) * (1.0 + np.abs(val))
         self.completed += 1
-        w.rhs_completed += 1
+        if not getattr(w, "foreign", False):
+            w.rhs_completed += 1
         if rec is not None:
             rec["done"] = True
         if w.scn["system"].get("rhs_buffer"):
